@@ -70,12 +70,14 @@ fn lane(path: &str, from: usize, to: usize, opts: &Opts) -> Vec<String> {
     let exe = std::env::current_exe().expect("current_exe");
     let mut results: Vec<Option<String>> = vec![None; to - from];
     let mut next = from;
-    let mut deaths = 0usize;
+    let mut deaths = 0usize; // in a row
+    let mut timeouts = 0usize;
+    let mut timeouts_in_row = 0usize;
     while next < to {
-        // A front end that hangs or dies on (nearly) every input would cost 10 s per case: after 25 deaths
-        // in one lane the remaining cases of the lane are reported as `skipped` (the check then refuses to
-        // call the run complete).
-        if deaths >= 25 {
+        // A front end that hangs on (nearly) every input would cost 10 s per case: after 6 timeouts in a row,
+        // 40 timeouts in all, or 300 deaths in a row in one lane, the remaining cases of the lane are reported
+        // as `skipped` (the check then refuses to call the run complete).
+        if timeouts_in_row >= 6 || timeouts >= 40 || deaths >= 300 {
             for r in results.iter_mut().skip(next - from) {
                 if r.is_none() {
                     *r = Some(json!({"o": "skipped"}).to_string());
@@ -136,6 +138,8 @@ fn lane(path: &str, from: usize, to: usize, opts: &Opts) -> Vec<String> {
                             if idx >= from && idx < to {
                                 results[idx - from] = Some(js.to_string());
                                 next = idx + 1;
+                                deaths = 0;
+                                timeouts_in_row = 0;
                             }
                         }
                         current = None;
@@ -186,6 +190,10 @@ fn lane(path: &str, from: usize, to: usize, opts: &Opts) -> Vec<String> {
         }
         next = victim + 1;
         deaths += 1;
+        if timed_out {
+            timeouts += 1;
+            timeouts_in_row += 1;
+        }
     }
     results.into_iter().map(|r| r.unwrap_or_else(|| json!({"o": "toolerror", "what": "no result"}).to_string())).collect()
 }
